@@ -167,47 +167,91 @@ def s1_reads(ctx):
                     'also reads %s' % sorted(extra), key='C03.S1|reads|%s' % prop)
 
 
-def s2_accumulators(ctx):
-    q, p_, c = V('quantity'), V('price'), V('commission')
-    for qn, avg, qty, com in (('Position._transact_buy', 'avg_bought', 'buy_quantity', 'buy_commission'),
-                              ('Position._transact_sell', 'avg_sold', 'sell_quantity', 'sell_commission')):
-        ps = summarise(ctx, qn, policy=default_policy)
-        nps = normal(ps)
-        if not ctx.require(len(nps) == 1 if len(nps) == 1 else None, 'C03.S2', '%s is straight-line' % qn, ctx.fn(qn).site(), [cond_str(x) for x in nps]):
+def sign_of(term, conds):
+    """signs (subset of {'neg','zero','pos'}) `term` can take under the path conditions that compare it - or a rounding of it (int, floor, ceil, trunc) - with zero;
+    tested = some condition did.  A rounding r(x) is > 0 only for x > 0 and < 0 only for x < 0; r(x) != 0 excludes x == 0."""
+    def core_of(o):
+        core, wrapped = o, False
+        while core[0] == 'call' and core[1] in (('ext', 'INT'), ('ext', 'FLOOR'), ('ext', 'TRUNC'), ('ext', 'CEIL')) and len(core[2]) == 1:
+            core, wrapped = core[2][0], True
+        return core, wrapped
+    signs, wsigns, tested = {'neg', 'zero', 'pos'}, {'neg', 'zero', 'pos'}, False
+    for c, v, _ in conds:
+        if c[0] != 'cmp' or ZERO not in (c[2], c[3]):
             continue
-        p = nps[0]
-        fa, fq, fc = F(avg), F(qty), F(com)
-        wa, wq, wc = heap_writes(p, avg), heap_writes(p, qty), heap_writes(p, com)
-        others = [w for w in heap_writes(p) if loc_attr(w.loc) not in (avg, qty, com)]
-        ctx.require(not others, 'C03.S2', '%s writes only its own side\'s accumulators' % qn, others[0].site if others else None,
-                    [fmt(w.loc) for w in others], key='C03.S2|%s|others' % qn)
-        ok = len(wa) == 1 and T.teq(T.t_mul(wa[0].value, T.t_add(fq, q)), T.t_add(T.t_mul(fa, fq), T.t_mul(q, p_)))
-        ctx.require(ok, 'C03.S2', '%s keeps average x quantity = sum of considerations' % qn, wa[0].site if wa else ctx.fn(qn).site(),
-                    [fmt(w.value) for w in wa], key='C03.S2|%s|avg' % qn)
-        ok = len(wq) == 1 and delta(wq[0]) is not None and T.teq(delta(wq[0]), q)
-        ctx.require(ok, 'C03.S2', '%s adds the fill quantity' % qn, wq[0].site if wq else ctx.fn(qn).site(), [fmt(w.value) for w in wq], key='C03.S2|%s|qty' % qn)
-        ok = len(wc) == 1 and delta(wc[0]) is not None and T.teq(delta(wc[0]), c)
-        ctx.require(ok, 'C03.S2', '%s adds the fill commission' % qn, wc[0].site if wc else ctx.fn(qn).site(), [fmt(w.value) for w in wc], key='C03.S2|%s|com' % qn)
-        # the average is computed from the pre-state quantity: avg write precedes the quantity write or uses the old value (implied by the identity above)
-    # dispatch: buys go to the buy side with (q, price, commission); sells with (-q, price, commission)
-    ps = summarise(ctx, 'Position.transact', policy=lambda a, b_, d: b_.is_property)
+        a_, b2 = c[2], c[3]
+        o = b2 if a_ == ZERO else a_
+        core, wrapped = core_of(o)
+        if not T.teq(core, term):
+            continue
+        sel = None
+        if c[1] in ('<', '<=') and a_ == ZERO:
+            sel = {'pos'} if c[1] == '<' else {'zero', 'pos'}
+        elif c[1] in ('<', '<=') and b2 == ZERO:
+            sel = {'neg'} if c[1] == '<' else {'neg', 'zero'}
+        elif c[1] == '==':
+            sel = {'zero'}
+        if sel is None:
+            continue
+        tested = True
+        eff = sel if v else ({'neg', 'zero', 'pos'} - sel)
+        if wrapped:
+            wsigns &= eff
+        else:
+            signs &= eff
+    if wsigns == {'pos'}:
+        signs &= {'pos'}
+    elif wsigns == {'neg'}:
+        signs &= {'neg'}
+    elif 'zero' not in wsigns:
+        signs -= {'zero'}
+    return signs, tested
+
+
+def s2_accumulators(ctx):
+    """Anchored on the public Position.transact with its private steps read through (one helper per side, one table-driven helper, inline code - all the same):
+    a buy adds (q, q x price, commission) to the buy side, a sell adds (|q|, |q| x price, commission) to the sell side, and nothing else of the six accumulators moves."""
     tx = V('transaction')
+    q, price, com = A(tx, 'quantity'), A(tx, 'price'), A(tx, 'commission')
+    fn = ctx.fn('Position.transact')
+
+    def own(caller, callee, depth):
+        return depth <= 6 and (default_policy(caller, callee, depth) or (callee.path == fn.path and callee.name.startswith('_') and not callee.name.startswith('__')))
+    try:
+        ps = summarise(ctx, fn, policy=own)
+    except Undecided as u:
+        ctx.undecided('C03.S2', 'Position.transact updates one side\'s accumulators per fill', fn.site(), str(u)[:160])
+        ps = []
+    ACC = {'buy': ('avg_bought', 'buy_quantity', 'buy_commission'), 'sell': ('avg_sold', 'sell_quantity', 'sell_commission')}
+    decided = {'buy': 0, 'sell': 0}
     for p in normal(ps):
-        for e in p.flat_events():
-            if e.kind == 'call' and ('Position._transact_buy' in e.callee or 'Position._transact_sell' in e.callee):
-                buy = 'Position._transact_buy' in e.callee
-                expq = A(tx, 'quantity') if buy else T.t_neg(A(tx, 'quantity'))
-                ok = T.teq(e.args.get('quantity', ZERO), expq) and e.args.get('price') == A(tx, 'price') and e.args.get('commission') == A(tx, 'commission')
-                ctx.require(ok, 'C03.S2', 'transact hands the %s side (|quantity|, price, commission) of the fill' % ('buy' if buy else 'sell'), e.site,
-                            {k: fmt(v) for k, v in e.args.items()}, key='C03.S2|dispatch|%s' % ('buy' if buy else 'sell'))
-                side = None
-                for c, v, _ in p.conds:
-                    if fmt(c) == 'transaction.quantity <= 0':
-                        side = not v
-                    elif fmt(c) == '0 < transaction.quantity':
-                        side = v
-                ctx.require(side == buy if side is not None else None, 'C03.S2', 'positive quantities are buys, negative are sells', e.site, cond_str(p),
-                            key='C03.S2|dispatch|sign')
+        touched = [w for w in heap_writes(p) if loc_attr(w.loc) in ACC['buy'] + ACC['sell']]
+        if not touched:
+            continue
+        signs, tested = sign_of(q, p.conds)
+        side = 'buy' if tested and signs == {'pos'} else ('sell' if tested and signs == {'neg'} else None)
+        if side is None:
+            ctx.undecided('C03.S2', 'a path of Position.transact that moves the accumulators is a buy (quantity > 0) or a sell (quantity < 0)', fn.site(), cond_str(p)[:160])
+            continue
+        amount = q if side == 'buy' else T.t_neg(q)
+        avg, qty, cm = ACC[side]
+        other = ACC['sell' if side == 'buy' else 'buy']
+        tag = '%s [%s]' % (side, cond_str(p)[:60])
+        others = [w for w in touched if loc_attr(w.loc) in other]
+        ctx.require(not others, 'C03.S2', 'a %s writes only its own side\'s accumulators' % side, others[0].site if others else fn.site(),
+                    [fmt(w.loc) for w in others], key='C03.S2|%s|others' % side)
+        wa, wq, wc = heap_writes(p, avg), heap_writes(p, qty), heap_writes(p, cm)
+        fa, fq = F(avg), F(qty)
+        ok = len(wa) >= 1 and T.teq(T.t_mul(wa[-1].value, T.t_add(fq, amount)), T.t_add(T.t_mul(fa, fq), T.t_mul(amount, price)))
+        ctx.require(ok, 'C03.S2', 'a %s keeps average x quantity = sum of considerations' % side, wa[-1].site if wa else fn.site(),
+                    [fmt(w.value)[:160] for w in wa], key='C03.S2|%s|avg' % side)
+        ok = len(wq) >= 1 and T.teq(T.t_sub(wq[-1].value, fq), amount)
+        ctx.require(ok, 'C03.S2', 'a %s adds the fill quantity to its side' % side, wq[-1].site if wq else fn.site(), [fmt(w.value)[:120] for w in wq], key='C03.S2|%s|qty' % side)
+        ok = len(wc) >= 1 and T.teq(T.t_sub(wc[-1].value, F(cm)), com)
+        ctx.require(ok, 'C03.S2', 'a %s adds the fill commission to its side' % side, wc[-1].site if wc else fn.site(), [fmt(w.value)[:120] for w in wc], key='C03.S2|%s|com' % side)
+        decided[side] += 1
+    for side, n_ in decided.items():
+        ctx.floor('C03.S2', '%s paths of Position.transact decided' % side, n_, 1)
     # a new position starts its accumulators from the opening fill
     ps = summarise(ctx, 'Position.open_from_transaction', policy=default_policy)
     for p in normal(ps):
